@@ -197,7 +197,7 @@ class ThreadEngine(Engine):
     gin2, fns2 = self.setup()
     _, _, _, _, oper2, _ = self.run_programs(gin2, fns2, case['progs'], None)
     if oper != oper2 and not failed:
-      fails.append(('final-operative-differs-from-sequential', 'threads %r; sequential %r' % (sorted(oper.items()), sorted(oper2.items()))))
+      fails.append(('final-operative-differs-from-sequential', 'threads %r; sequential %r' % (sorted(oper.items(), key=repr), sorted(oper2.items(), key=repr))))
     # singletons: constructed once per name, one object for all users
     for name in NAMES:
       if built.count(name) > 1:
